@@ -317,8 +317,13 @@ func (b *BloomSearchEngine) Stop(ctx context.Context) error {
 	select {
 	case <-done:
 		verifEvent("stop.ret.nil", 0, 0)
-		// Workers finished gracefully
-		stopAfter()
+		// Workers finished. If ctx expired on the way, the AfterFunc has
+		// already canceled flush work and deliveries may have been given up:
+		// that is not a graceful shutdown, so report the deadline (this select
+		// picks at random when both channels are ready).
+		if !stopAfter() {
+			return fmt.Errorf("shutdown timeout exceeded: %w", ctx.Err())
+		}
 		return nil
 	case <-ctx.Done():
 		verifEvent("stop.ret.deadline", 0, 0)
